@@ -308,4 +308,32 @@ def run(ctx):
             r.ok(f'native and swapped paths return the same set of values {sorted(nat, key=str)}', func=gm.name, loc=gm.mod.src,
                  facts={'native_paths': sum(map(len, nat.values())), 'swapped_paths': sum(map(len, swp.values()))})
     r.require_min(1)
+    # ---------------- R11f nothing but "== 0" is asked of the raw version before the byte order is known
+    r = ctx.rule('R11f', 'header validation: ordered comparisons of the stored library version use the value in host order (raw only behind magic == native)',
+                 'a range test on the raw field means something else for a header written on the other byte order: the same header gets different verdicts')
+    from ..paths import enumerate_paths as _ep11
+    hv = P.fn('is_invalid_fragment_header')
+    badp = None
+    npth = 0
+    for pth in _ep11(P, hv):
+        T = [(pr, a, b) for pr, a, b, w, i_ in pth.truths()]
+        npth += 1
+        native = any(pr == 'eq' and a == '*arg0.magic' and const_of(b) == MAGIC for pr, a, b in T)
+        for pr, a, b in T:
+            raw = (a == '*arg0.libec_version' or b == '*arg0.libec_version')
+            if not raw:
+                continue
+            other = b if a == '*arg0.libec_version' else a
+            if pr in ('eq', 'ne') and other == '0':
+                continue                                   # zero is zero in either byte order
+            if not native:
+                badp = (pr, a, b)
+    inst = 'is_invalid_fragment_header: the raw version field is only compared with 0 before the byte order is decided'
+    if badp:
+        r.fail(inst, func=hv.name, sig=f'raw version compared: {badp[0]} {badp[2][:20]}', loc=hv.mod.src,
+               msg=f'a path compares the stored (raw) libec_version with {badp[2]} ({badp[0]}) without having established that the header is in host byte order: '
+                   'for an opposite-endian header the bytes are reversed and the test means something else')
+    else:
+        r.ok(inst, func=hv.name, loc=hv.mod.src, facts={'paths': npth})
+    r.require_min(1)
     ctx.borrow('c10', ['R10d'], 'both byte orders verify checksums with the same two CRC functions')
